@@ -39,17 +39,24 @@ def cases(tier, seed):
         kind = ["value", "equiv_fixed", "equiv_adaptive", "equiv_fixed"][k % 4]
         d = rng.randint(1, 3 if kind != "equiv_adaptive" else 2)
         nu = rng.randint(1, 4)
+        # every fourth 'value' case is a small-residual regime (high order, tight tolerance / small steps): raw residuals of
+        # 1e-8..1e-12, where absolute thresholds and "safe" fallbacks in a scale estimate would show (seed C14-s2)
+        small = kind == "value" and (k // 4) % 2 == 1
+        if small:
+            nu = rng.randint(4, 5)
         field, inits, t0 = poly.random_problem(rng, d=d, nblocks=1, num_coeffs=nu + 1, degree=2, nterms=2, time_dep=rng.random() < 0.5)
         dyadic = rng.random() < 0.6
         out.append(
             {
-                "id": f"{kind}-{k}", "kind": kind, "fact": configs.FACTS[(k // 4) % 3], "cal": configs.CALS[(k // 12) % 3] if tier == "thorough" else rng.choice(configs.CALS),
+                "id": f"{kind}-{k}", "kind": kind,
+                "fact": configs.FACTS[(k // 8) % 3] if small else configs.FACTS[(k // 4) % 3],
+                "cal": ["mle", "dynamic"][(k // 24) % 2 if tier == "thorough" else rng.randrange(2)] if small else (configs.CALS[(k // 12) % 3] if tier == "thorough" else rng.choice(configs.CALS)),
                 "ts": rng.choice(["ts0", "ts1"]), "nu": nu,
                 "strategy": rng.choice(["filter", "fixedpoint"]) if kind in ("value", "equiv_adaptive") else rng.choice(["filter", "fixedinterval"]),
                 "c": float(2.0 ** rng.randint(-20, 20)) if dyadic else float(10 ** rng.uniform(-6, 6)), "dyadic": dyadic,
                 "base": float(10 ** rng.uniform(-1, 1)), "correct": rng.random() < 0.7, "cinit": kind == "value" and rng.random() < 0.3,
                 "relin": rng.random() < 0.5,
-                "tol": 10 ** rng.uniform(-5, -2), "dt0": 10 ** rng.uniform(-2, -0.5), "T": rng.uniform(0.3, 0.8),
+                "tol": 10 ** rng.uniform(-9, -7) if small else 10 ** rng.uniform(-5, -2), "small_residuals": small, "dt0": 10 ** rng.uniform(-2, -0.5), "T": rng.uniform(0.3, 0.8),
                 "steps": [configs.loguniform(rng, 0.02, 0.2) for _ in range(rng.randint(3, 7))],
                 "field": field.to_json(), "inits": [[str(x) for x in b] for b in inits], "t0": str(t0),
                 "seedc": rng.randrange(10**9), "cost": 12.0 if kind != "equiv_fixed" else 4.0,
